@@ -256,28 +256,39 @@ def _check_module(res, m):
                      "; ".join(f"{k}: {pin['table'][k]!r} -> {t.get(k)!r}" for k in diff)[:600])
 
 
+# platform names a spa is known to report in FILES besides the pack's own name (the audited handler maps them)
+REPORTED_NAMES = {"mrsteam": ["MrSt"]}
+
+
 def _check_combo(res, plat, cv, lv):
     """what a spa reports in FILES for this combination resolves to the shipped module names"""
     from geckolib.driver import GeckoConfigFileProtocolHandler, GeckoStructure
 
+    from .. import refcodec as R
+
     pack = packs.real_module(plat).GeckoPack(GeckoStructure(None))
-    body = GeckoConfigFileProtocolHandler.response(pack.name, cv, lv, parms=(1, 2, b"a", b"b"))._content
-    h = GeckoConfigFileProtocolHandler()
-    sig = f"C18|files|{plat}"
-    try:
-        h.handle(body, None)
-    except Exception as exc:  # noqa
-        res.fail(sig + "|parse", f"FILES reply {body!r} for {plat}/{cv}/{lv}: {exc!r}")
-        return
-    key = h.plateform_key.lower()
     names = _index()["shipped"]
     want = (plat, f"{plat}-cfg-{cv}", f"{plat}-log-{lv}")
-    got = (key, f"{key}-cfg-{h.config_version}", f"{key}-log-{h.log_version}")
-    if got != want:
-        res.fail(sig + "|resolve", f"FILES {body!r} resolves to {got}, shipped modules are {want}")
-    for g in got:
-        if g not in names:
-            res.fail(sig + "|module-missing", f"{g} not shipped")
+    # the reply as the library builds it from the pack's own name, and as a spa words it (reference codec), incl. the
+    # shortened platform names real modules are known to report (pinned at the audited commit)
+    bodies = [("own-name", GeckoConfigFileProtocolHandler.response(pack.name, cv, lv, parms=(1, 2, b"a", b"b"))._content)]
+    for reported in [pack.name] + REPORTED_NAMES.get(plat, []):
+        bodies.append((f"reported-{reported}", R.configfile_response(reported, cv, lv)))
+    for label, body in bodies:
+        h = GeckoConfigFileProtocolHandler()
+        sig = f"C18|files|{plat}|{label}"
+        try:
+            h.handle(body, None)
+        except Exception as exc:  # noqa
+            res.fail(sig + "|parse", f"FILES reply {body!r} for {plat}/{cv}/{lv}: {exc!r}")
+            continue
+        key = h.plateform_key.lower()
+        got = (key, f"{key}-cfg-{h.config_version}", f"{key}-log-{h.log_version}")
+        if got != want:
+            res.fail(sig + "|resolve", f"FILES {body!r} resolves to {got}, shipped modules are {want}")
+        for g in got:
+            if g not in names:
+                res.fail(sig + "|module-missing", f"{g} not shipped")
 
 
 def run_case(case) -> Result:
